@@ -110,7 +110,17 @@ func drawFault(tp *tape.Tape, fresh func() string) fault {
 		}
 	}
 	d := tp.Draw(6)
-	switch tp.Draw(12) {
+	if tp.Draw(8) == 0 {
+		d = 100 + tp.Draw(400) // a failure hundreds of calls deep
+	}
+	switch tp.Draw(13) {
+	case 12: // two statements on one physical line, the first one fails: the second still runs
+		v := fresh()
+		a := fmt.Sprintf("%s = bomb(%d, 0) %s = %d", y, d%6, v, 100+tp.Draw(900))
+		f := fault{a: a, b: fmt.Sprintf("%s = %d", v, 0), tag: "F1.first_of_two_statements_on_a_line", depth: true}
+		f.b = a[strings.Index(a, v+" = "):]
+		f.probes = []string{"write(toa(" + v + "))"}
+		return f
 	case 0:
 		a, b := wrap("1 / 0")
 		return mk(a, b, "F1.zero_div.top", false)
@@ -255,7 +265,7 @@ func (C08) Run(tp *tape.Tape) core.Result {
 	}
 	both := func(src string) bool {
 		h.add(src)
-		lsteps = append(lsteps, lstep{src, src, true})
+		lsteps = append(lsteps, lstep{a: src, b: src, cmp: true})
 		key = key.Str(shapeOf(src))
 		oa := A.Submit(src+"\n", sw.Repl)
 		ob := B.Submit(src+"\n", sw.Repl)
@@ -293,13 +303,19 @@ func (C08) Run(tp *tape.Tape) core.Result {
 					goto done
 				}
 				last := oa[len(oa)-1]
-				if last.Kind != sess.KError && last.Kind != sess.KParse {
+				failedAny := false
+				for _, o := range oa {
+					if o.Kind == sess.KError || o.Kind == sess.KParse {
+						failedAny = true
+					}
+				}
+				if !failedAny {
 					r.Violation = &core.Violation{Clause: "fault-did-not-fail", Detail: fmt.Sprintf("failing statement %q ended with %s", f.a, last.Brief()), History: h}
 					goto done
 				}
 				r.Inc(f.tag, 1)
 				if !f.open {
-					lsteps = append(lsteps, lstep{f.a, f.b, false})
+					lsteps = append(lsteps, lstep{a: f.a, b: f.b, multi: f.tag == "F1.first_of_two_statements_on_a_line"})
 				}
 				if len(f.probes) > 0 {
 					pending = append(pending, f.probes...)
@@ -320,6 +336,13 @@ func (C08) Run(tp *tape.Tape) core.Result {
 						goto done
 					}
 				}
+			}
+		}
+		if tp.Draw(12) == 0 {
+			// a recursion several hundred calls deep: whatever the failures left behind must not count against it
+			r.Inc("F8.deep_recursion_after_failures", 1)
+			if both(fmt.Sprintf("deep(%d)", 600+tp.Draw(400))) {
+				goto done
 			}
 		}
 		lines := g.TopStmt(top)
@@ -348,7 +371,7 @@ func (C08) Run(tp *tape.Tape) core.Result {
 					}
 				} else {
 					// the statement completed in A (normally or with its own error): B must run it too
-					lsteps = append(lsteps, lstep{src, src, true})
+					lsteps = append(lsteps, lstep{a: src, b: src, cmp: true})
 					ob := B.Submit(src+"\n", sw.Repl)
 					if rest("B "+trunc(src, 40), B, ob) || check("statement (abort not reached) "+trunc(src, 60), oa, ob) {
 						goto done
@@ -422,6 +445,8 @@ func cutReports(s string) string {
 type lstep struct {
 	a, b string
 	cmp  bool
+	// multi: the step holds several statements on one line; output after a report is then the next statement's
+	multi bool
 }
 
 // c08Stream runs the stream phase of C08: the same history through the real read-eval loop
@@ -528,7 +553,11 @@ func c08Stream(lsteps []lstep, nDefs int, repl, binary bool, r *core.Result, h *
 	}
 	for i := range lsteps {
 		for _, seg := range []string{sa[i], sb[i]} {
-			if c := collapseReports(seg); strings.Contains(c, "RUNTIME ERROR") && !strings.HasSuffix(c, "RUNTIME ERROR") {
+			if strings.Contains(seg, "giving up") {
+				r.Violation = &core.Violation{Clause: "stream-report-gave-up", Detail: fmt.Sprintf("step %d %q through %s: the error report could not be produced: %q", i, trunc(lsteps[i].a, 60), where, trunc(seg, 400)), History: h}
+				return r.Violation
+			}
+			if c := collapseReports(seg); !lsteps[i].multi && strings.Contains(c, "RUNTIME ERROR") && !strings.HasSuffix(c, "RUNTIME ERROR") {
 				r.Violation = &core.Violation{Clause: "stream-output-after-report", Detail: fmt.Sprintf("step %d %q through %s: output goes on after the error report: %q", i, trunc(lsteps[i].a, 60), where, trunc(c, 200)), History: h}
 				return r.Violation
 			}
@@ -563,9 +592,9 @@ func (C08) RunScript(raw json.RawMessage) core.Result {
 	for _, st := range sc.Steps {
 		if strings.HasPrefix(st, "!") {
 			a, b, _ := strings.Cut(st[1:], "|")
-			ls = append(ls, lstep{a, b, false})
+			ls = append(ls, lstep{a: a, b: b})
 		} else {
-			ls = append(ls, lstep{st, st, true})
+			ls = append(ls, lstep{a: st, b: st, cmp: true})
 		}
 	}
 	if c08Stream(ls, 0, sc.Flavour == "repl", false, &r, h, nil) == nil {
